@@ -44,7 +44,7 @@ API_TO_OPS.update({
  'impl From<u128> for d128': ['copy'],            # every case builds its operands with From<u128>
  'impl From<u32> for RoundingMode': ['add'],      # modes 0..4 (an unknown number is excluded by the property)
  'impl StatusFlags': ['consts'],
- 'impl std::hash::Hash for d128': ['hash', 'hasheq', 'hashset', 'hashslice'],
+ 'impl std::hash::Hash for d128': ['hash', 'hasheq', 'hashset', 'hashslice', 'hashsliceeq'],
  'impl std::iter::Product for d128': ['product'], "impl std::iter::Product<&'a d128> for d128": ['product'],
  'impl std::iter::Sum for d128': ['sum'], "impl std::iter::Sum<&'a d128> for d128": ['sum'],
  "impl serde::de::Deserialize<'de> for d128 (serde)": ['serde', 'serde_de'], 'impl serde::ser::Serialize for d128 (serde)': ['serde'],
